@@ -946,6 +946,11 @@ def cases(rng, tier):
              [("ࠀ", "퟿"), ("", "￿"), ("\U00010000", "~._-")]]
     for ps in fixed:
         yield "qs_enc " + enc_pairs(ps)
+    # every pair list of length <= 3 over blank / plain / reserved keys and values (blank key with blank value included)
+    alpha = [(k, v) for k in ("", "a", "b c") for v in ("", "1", "x&y=z")]
+    for n in (1, 2, 3):
+        for ps in itertools.product(alpha, repeat=n):
+            yield "qs_enc " + enc_pairs(list(ps))
     for _ in range(60000 if thorough else 4000):
         sur = rng.random() < 0.08
         ps = [(rand_text(rng, sur), rand_text(rng, sur)) for _ in range(rng.choice([0, 1, 1, 2, 3, 5]))]
